@@ -5,7 +5,7 @@
 From Coq Require Import String List NArith Bool Sorting.Permutation.
 From Fabio Require Import Lib.Outcome Lib.Bytes Model.Glob Model.Lookup Model.LookupCmd Proofs.LookupGlob Proofs.Lookup
   Proofs.LookupOrder
-  Proofs.LookupCmd.
+  Proofs.LookupCmd Proofs.LookupV6.
 Import ListNotations.
 Local Open Scope N_scope.
 
@@ -350,3 +350,48 @@ Theorem C03_on_domain_nonvacuous :
   /\ lookup t (bs "b.a.foo.com:443") true (bs "/x") MGlob false = Some (bs "*.a.foo.com", bs "/x", 4).
 Proof. exact on_domain_nonvacuous. Qed.
 Print Assumptions C03_on_domain_nonvacuous.
+
+(* "default port removed": for EVERY host text - names, IPv4, IPv6 literals in brackets, any
+   bytes - exactly the default port of the connection's kind is cut off (":80" plain, ":443"
+   TLS) and the rest is only lower-cased; a host without that suffix is only lower-cased
+   (so ":443" on a plain connection and ":80" on a TLS one are kept) *)
+Theorem C03_default_port_removed : forall h : str,
+  normalize_host (h ++ s_80)%list false = lower h /\ normalize_host (h ++ s_443)%list true = lower h.
+Proof. exact (fun h => conj (normalize_default_port_plain h) (normalize_default_port_tls h)). Qed.
+Print Assumptions C03_default_port_removed.
+
+Theorem C03_only_default_port_removed : forall h : str,
+  (has_suffix h s_80 = false -> normalize_host h false = lower h)
+  /\ (has_suffix h s_443 = false -> normalize_host h true = lower h).
+Proof. exact (fun h => conj (normalize_other_plain h) (normalize_other_tls h)). Qed.
+Print Assumptions C03_only_default_port_removed.
+
+(* IPv6 literals: with literal host keys the route "[a]/" is a candidate of a request for
+   "[a]:80" (plain) resp. "[a]:443" (TLS), the brackets stay; the other kind's default port is
+   not removed.  (With glob matching enabled a bracketed key is a character class, outside the
+   glob model.) *)
+Theorem C03_ipv6_literal_default_port : forall (a : str) tls,
+  spec_host_match true tls (91 :: a ++ [93])%list ((91 :: a ++ [93]) ++ (if tls then s_443 else s_80))%list = true.
+Proof. exact v6_literal_default_port. Qed.
+Print Assumptions C03_ipv6_literal_default_port.
+
+Theorem C03_ipv6_literal_other_port_kept : forall a : str,
+  normalize_host ((91 :: a ++ [93]) ++ s_443)%list false = lower ((91 :: a ++ [93]) ++ s_443)%list
+  /\ normalize_host ((91 :: a ++ [93]) ++ s_80)%list true = lower ((91 :: a ++ [93]) ++ s_80)%list.
+Proof. exact v6_literal_other_port_kept. Qed.
+Print Assumptions C03_ipv6_literal_other_port_kept.
+
+(* ReverseHostPort (the sort key of matchingHosts) on bracketed literals: "[a]:p" is split by
+   net.SplitHostPort into a and p, the address is reversed and re-joined (brackets again when it
+   has a colon); "[a]" alone is no host:port and is reversed as a whole *)
+Theorem C03_reverse_host_port_ipv6 : forall a p : str,
+  a <> [] -> p <> [] ->
+  ~ In 91 a -> ~ In 93 a -> ~ In 58 p -> ~ In 91 p -> ~ In 93 p ->
+  reverse_host_port (91 :: a ++ 93 :: 58 :: p)%list = join_host_port (rev a) p.
+Proof. exact reverse_host_port_v6. Qed.
+Print Assumptions C03_reverse_host_port_ipv6.
+
+Theorem C03_reverse_host_port_ipv6_noport : forall a : str,
+  ~ In 93 a -> reverse_host_port (91 :: a ++ [93])%list = rev (91 :: a ++ [93])%list.
+Proof. exact reverse_host_port_v6_noport. Qed.
+Print Assumptions C03_reverse_host_port_ipv6_noport.
